@@ -80,6 +80,8 @@ type Store struct {
 	NoSimp  bool
 	facts   map[int][2]uint64
 	known   map[int]uint64
+	aff     map[int]affine  // term = base + off (no wrap-around considered: used only under % m)
+	modprov map[int]ModProv // term = (base + off) mod m
 	ivMemo  map[int][2]uint64
 	// RemSplit: x % c with x known below 3c becomes compare-and-subtract
 	RemSplit bool
@@ -399,6 +401,17 @@ func foldBin(op Op, x, y uint64, w int) (uint64, bool) {
 
 // Bin builds a bit-vector binary operation.
 func (s *Store) Bin(op Op, a, b *Term) *Term {
+	r := s.bin0(op, a, b)
+	switch op {
+	case OpAdd:
+		s.noteAdd(r, a, b)
+	case OpURem:
+		s.noteRem(r, a, b)
+	}
+	return r
+}
+
+func (s *Store) bin0(op Op, a, b *Term) *Term {
 	if a.W != b.W || a.W == 0 {
 		panic(fmt.Sprintf("Bin %s width mismatch %d %d", opNames[op], a.W, b.W))
 	}
@@ -1393,4 +1406,69 @@ func (s *Store) bounded(t *Term, hi uint64) *Term {
 		s.bounded(t.Args[0], hi)
 	}
 	return t
+}
+
+type affine struct {
+	base *Term
+	off  uint64
+}
+
+// ModProv records that a term equals (Base + Off) mod M, with Off < M.
+type ModProv struct {
+	Base *Term
+	Off  uint64
+	M    uint64
+}
+
+func (s *Store) affOf(t *Term) affine {
+	if a, ok := s.aff[t.ID]; ok {
+		return a
+	}
+	return affine{t, 0}
+}
+
+// ModProvOf returns the modular provenance of an index term, if known.
+func (s *Store) ModProvOf(t *Term) (ModProv, bool) {
+	p, ok := s.modprov[t.ID]
+	return p, ok
+}
+
+func (s *Store) noteAdd(res, a, b *Term) {
+	if res.Op == OpConst {
+		return
+	}
+	var x *Term
+	var c uint64
+	switch {
+	case b.IsConst():
+		x, c = a, b.Val
+	case a.IsConst():
+		x, c = b, a.Val
+	default:
+		return
+	}
+	ax := s.affOf(x)
+	if s.aff == nil {
+		s.aff = map[int]affine{}
+	}
+	if _, ok := s.aff[res.ID]; !ok {
+		s.aff[res.ID] = affine{ax.base, ax.off + c}
+	}
+}
+
+func (s *Store) noteRem(res, a, m *Term) {
+	if res.Op == OpConst || !m.IsConst() || m.Val == 0 {
+		return
+	}
+	ax := s.affOf(a)
+	// the sum must not wrap for the congruence to hold
+	if iv := s.interval(ax.base); iv[1] > (uint64(1)<<62) || ax.off > (uint64(1)<<62) {
+		return
+	}
+	if s.modprov == nil {
+		s.modprov = map[int]ModProv{}
+	}
+	if _, ok := s.modprov[res.ID]; !ok {
+		s.modprov[res.ID] = ModProv{ax.base, ax.off % m.Val, m.Val}
+	}
 }
